@@ -2,6 +2,7 @@ package sshswarm
 
 import (
 	"context"
+	"io"
 	"log"
 	"net"
 	"net/netip"
@@ -119,6 +120,9 @@ func (s *Swarm) Ask(ctx context.Context, resp []byte, dst Addr, data p2p.IOVec) 
 	reply, err := c.Send(true, p2p.VecBytes(nil, data))
 	if err != nil {
 		return 0, err
+	}
+	if len(reply) > len(resp) {
+		return 0, io.ErrShortBuffer
 	}
 	return copy(resp, reply), nil
 }
